@@ -149,6 +149,9 @@ func (op *Opt4RDMapRule) FromBytes(data []byte) error {
 	buf := uio.NewBigEndianBuffer(data)
 	op.Prefix4.Mask = net.CIDRMask(int(buf.Read8()), 32)
 	op.Prefix6.Mask = net.CIDRMask(int(buf.Read8()), 128)
+	if op.Prefix4.Mask == nil || op.Prefix6.Mask == nil {
+		return fmt.Errorf("invalid prefix length in 4RD map rule")
+	}
 	op.EABitsLength = buf.Read8()
 	op.WKPAuthorized = (buf.Read8() & opt4RDWKPAuthorizedMask) != 0
 	op.Prefix4.IP = net.IP(buf.CopyN(net.IPv4len))
